@@ -229,26 +229,30 @@ class Column:
                 col.parent = parent
             return col
 
-        source_columns = set()
+        # dict as an ordered set: tables are visited in the order of alias_mapping and source columns are returned
+        # in the order they are found, so that the result does not depend on the iteration order of a set,
+        # which changes with the hash seed of the process
+        tables = list(dict.fromkeys(alias_mapping.values()))
+        source_columns: dict[Column, None] = {}
         for src_col, qualifier in self.source_columns:
             if qualifier is None:
                 if src_col == "*":
                     # select *
-                    for table in set(alias_mapping.values()):
-                        source_columns.add(_to_src_col(src_col, table))
+                    for table in tables:
+                        source_columns.setdefault(_to_src_col(src_col, table))
                 else:
                     # select unqualified column
                     source = _to_src_col(src_col, None)
-                    for table in set(alias_mapping.values()):
+                    for table in tables:
                         # in case of only one table, we get the right answer
                         # in case of multiple tables, a bunch of possible tables are set
                         source.parent = table
-                    source_columns.add(source)
+                    source_columns.setdefault(source)
             else:
                 if alias_mapping.get(qualifier):
-                    source_columns.add(
+                    source_columns.setdefault(
                         _to_src_col(src_col, alias_mapping.get(qualifier))
                     )
                 else:
-                    source_columns.add(_to_src_col(src_col, Table(qualifier)))
-        return source_columns
+                    source_columns.setdefault(_to_src_col(src_col, Table(qualifier)))
+        return list(source_columns)
